@@ -79,7 +79,8 @@ MANIFEST = {
             'compared with the direct call.  Slot lists in three new and '
             'seven old element forms are converted new->old->new and '
             'old->new->old and through Slot(); node, core/GPU indices, lfs, '
-            'mem are compared after every step.',
+            'mem are compared after every step.'
+            "  The same function payload is decoded twice with the first decode's argument objects changed in between (what a call leaves behind): the second decode gives the original arguments and result.",
     'note': 'sampled, not enumerated; alias table taken from _verify and the '
             '_schema comments; when a deprecated attribute and its replacement '
             'are both set to different values either value is accepted; '
